@@ -219,7 +219,7 @@ impl World for WatermarkWorld {
         let arrivals: Vec<Arrival> = arrivals;
         // epoch offset (swarm): real streams carry epoch milliseconds (~1.7e12), not 0..40 — arithmetic that
         // is fine near zero may truncate or wrap beyond 2^31, 2^32 or 2^53
-        let offset = *rng.pick(&[0u64, 0, 0, 1_700_000_000_000, (1 << 31) - 20, (1u64 << 32) - 20, 1u64 << 53]);
+        let offset = *rng.pick(&[0u64, 0, 0, 0, 1_700_000_000_000, 1_700_000_000_000, (1 << 31) - 20, (1u64 << 32) - 20, 1u64 << 53, (1u64 << 63) - 20, (1u64 << 63) + 1000]);
         let arrivals = arrivals.into_iter().map(|a| Arrival { ts: a.ts * scale + offset, ..a }).collect();
         WmTrace { hash_seed, wm, late, arrivals, tick_pattern }
     }
@@ -246,6 +246,9 @@ impl World for WatermarkWorld {
         obs.faulty = t.arrivals.iter().any(|a| a.clock_adv <= 0) || !t.tick_pattern.is_empty();
         if t.arrivals.iter().any(|a| a.src != t.arrivals[0].src) {
             obs.count("probe.events_of_two_sources");
+        }
+        if t.arrivals.iter().any(|a| a.ts >= 1 << 63) {
+            obs.count("probe.timestamps_beyond_2_to_the_63");
         }
         if t.arrivals.iter().any(|a| a.ts >= 1 << 31) {
             obs.count("probe.timestamps_beyond_2_to_the_31");
